@@ -19,4 +19,6 @@ CoreSiblings == {"b", "bdrip", "a", "noroute", "nobackend"}
 BothProtos == {"h1", "h2"}
 AllFramings == {"cl", "chunked", "close"}
 CoreFramings == {"cl"}
+BothTimings == {"bf", "ff"}
+BackFirst == {"bf"}
 =============================================================================
